@@ -83,7 +83,7 @@ func (n *RaftNode) loadState() error {
 		return errors.Wrap(err, "loading state failed")
 	}
 	var state fsmState
-	state.decode(kvstate.Value)
+	err = state.decode(kvstate.Value)
 	if err != nil {
 		return errors.Wrap(err, "unable to decode state")
 	}
@@ -243,8 +243,12 @@ func (n *RaftNode) Restore(rc io.ReadCloser) error {
 		}
 	}
 
-	n.loadState()
-	n.balloon.RefreshVersion()
+	if err := n.loadState(); err != nil {
+		return err
+	}
+	if err := n.balloon.RefreshVersion(); err != nil {
+		return err
+	}
 
 	n.log.Infof("Recovering finished, new version: %d", n.state.BalloonVersion)
 
